@@ -13,6 +13,7 @@ CONSTANTS
     MaxTasks = 1
     MaxDepth = 2
     Panics = TRUE
+    Discards = TRUE
     Emit = FALSE
 VIEW cview
 INVARIANTS InnermostWins NoTrace StackOK
